@@ -579,6 +579,29 @@ class Algebra(object):
                 return self.atom(("ite", ck, self.pid(sa), self.pid(sb)), False, "ite", (c, sa, sb, ck))
         return self.atom(("sumt", self.pid(p)), False, "sumt", (p,))
 
+    def reduce(self, p):
+        """x * [x == 0] = 0: drop monomials that contain an atom together with the indicator
+        that this very atom is zero."""
+        out = {}
+        for mono, c in p.m.items():
+            d = dict(mono)
+            dead = False
+            for aid, pw in mono:
+                a = self.atoms.get(aid)
+                if a is None or a.kind != "ind":
+                    continue
+                ck = a.parts[1]
+                if isinstance(ck, tuple) and ck and ck[0] == "eq0" and isinstance(ck[1], int):
+                    q = self.poly_of_pid(ck[1])
+                    if len(q.m) == 1:
+                        (qm, qc), = q.m.items()
+                        if len(qm) == 1 and qm[0][1] == 1 and d.get(qm[0][0], 0) > 0:
+                            dead = True
+                            break
+            if not dead:
+                out[mono] = c
+        return Poly(out)
+
     def pmin(self, pa, pb, perstep=True):
         """min of two polynomials as the same atom the extractor would produce."""
         if pa == pb:
